@@ -37,7 +37,7 @@ K_UTXOS_STRIP = 'C08/utxos/live-rows-stripped-of-orm-state'
 K_CROSS_ACCOUNT = 'C08/multi-account/one-transaction-paying-two-accounts-booked-under-one'
 
 OPS = ['send_refused_keep', 'new_account', 'new_key', 'get_key', 'new_key_change', 'fund_update', 'fund_update', 'update', 'update_lag', 'utxo_add', 'update_list',
-       'send', 'send', 'send', 'send_nobroadcast', 'send_fail', 'sweep', 'import_raw', 'delete', 'mine', 'reopen', 'reopen', 'send_offline_input']
+       'send', 'send', 'send', 'send_nobroadcast', 'send_fail', 'sweep', 'import_raw', 'delete', 'mine', 'reopen', 'reopen', 'send_offline_input', 'import_obj_send']
 
 
 class History:
@@ -188,6 +188,25 @@ class History:
                     finally:
                         CH.faults['lag'] = 0
                     self.sync = False
+            elif op == 'import_obj_send':
+                # a version 2 (or 3) transaction, with or without a relative lock time, prepared elsewhere arrives as a Transaction object, is
+                # imported, signed, sent and thereby stored; it must reload unchanged (I5)
+                bal = int(w.balance(account_id=0))
+                if bal > 50000:
+                    addr, _ = wallet_env.external_address(rnd, network)
+                    t0 = w.send_to(addr, rnd.choice([bal // 10, bal // 3]), account_id=0, min_confirms=0, broadcast=False,
+                                   priv_keys=ctx.extra_priv or None)
+                    T = t0.to_transaction()
+                    if rnd.random() < 0.5:
+                        T.set_locktime_relative_blocks(rnd.choice([1, 10, 144]), 0)
+                    else:
+                        T.version_int = rnd.choice([2, 2, 3])
+                    T.sign_and_update()
+                    rt = w.transaction_import(T)
+                    rt.sign(ctx.extra_priv or None)
+                    nb = len(CH.broadcasts)
+                    rt.send()
+                    self.after_send(rt, nb)
             elif op == 'send_refused_keep':
                 # a request refused *after* input selection (fee far above the limit); the caller keeps the exception object
                 bal = int(w.balance())
@@ -221,7 +240,7 @@ class History:
         except Exception as e:
             txt = '%s: %s' % (type(e).__name__, str(e)[:160])
             del e
-            if op in ('send', 'send_nobroadcast', 'send_fail', 'sweep', 'send_offline_input') or (op == 'import_raw' and txt.startswith('WalletError')):
+            if op in ('send', 'send_nobroadcast', 'send_fail', 'sweep', 'send_offline_input', 'import_obj_send') or (op == 'import_raw' and txt.startswith('WalletError')):
                 pass   # refusals are legitimate (insufficient funds, dust, fee limits, failing provider; import of a
                 # transaction whose inputs the wallet no longer has a value for) - the invariants are checked all the same
             else:
